@@ -67,7 +67,12 @@ pub fn compile(sc: &Value) -> Compiled {
             Err(m) => Compiled { program: None, outcome: json!({"outcome": "asm_panic", "msg": m}) },
         };
     }
-    let src = sc["src"].as_str().unwrap_or("").to_string();
+    let mut src = sc["src"].as_str().unwrap_or("").to_string();
+    // a Merkle tree in the advice provider: {{MROOT}} in the source stands for the four elements of its root
+    if let Some(tree) = merkle_tree(sc) {
+        let r: [Felt; 4] = tree.root().into();
+        src = src.replace("{{MROOT}}", &r.iter().map(|f| f.as_int().to_string()).collect::<Vec<_>>().join("."));
+    }
     let r = catch(|| make_assembler(sc).and_then(|a| a.compile(&src).map_err(|e| format!("{e:?}"))));
     match r {
         Ok(Ok(p)) => Compiled { program: Some(p), outcome: Value::Null },
@@ -83,9 +88,26 @@ pub fn stack_inputs(sc: &Value) -> StackInputs {
     StackInputs::new(v)
 }
 
+/// scenario field "mtree": leaves (words of u64) of a Merkle tree put into the advice provider's store
+pub fn merkle_tree(sc: &Value) -> Option<processor::crypto::MerkleTree> {
+    let leaves = sc["mtree"].as_array()?;
+    let words: Vec<vm_core::Word> = leaves
+        .iter()
+        .map(|w| {
+            let v: Vec<Felt> = w.as_array().unwrap().iter().map(|x| Felt::new(x.as_u64().unwrap())).collect();
+            [v[0], v[1], v[2], v[3]]
+        })
+        .collect();
+    processor::crypto::MerkleTree::new(words).ok()
+}
+
 pub fn advice_inputs(sc: &Value) -> AdviceInputs {
     let adv: Vec<Felt> = json_to_felts(&sc["adv"]);
-    AdviceInputs::default().with_stack(adv)
+    let mut a = AdviceInputs::default().with_stack(adv);
+    if let Some(tree) = merkle_tree(sc) {
+        a = a.with_merkle_store(processor::crypto::MerkleStore::from(&tree));
+    }
+    a
 }
 
 pub fn exec_options_checked(sc: &Value) -> Result<ExecutionOptions, String> {
